@@ -199,16 +199,29 @@ __wrap_clock_gettime(clockid_t c, struct timespec * ts)
 	if (clk_fail != NULL && !draining) {
 		for (i = 0; i < clk_fail->ntok; i++)
 			if (clk_fail->tok[i].n > 0 && clk_fail->tok[i].v[0] == (int64_t)clk_reads) {
+				static const int ce[] = { EIO, EPERM, EFAULT, EPERM };
+
 				clk_reads++;
 				clock_failures++;
 				R->cnt[N_CLOCKFAIL]++;
-				TR(0xA2, clk_reads - 1, 0, "clock_gettime -> -1 EIO (injected)");
-				errno = EIO;
+				errno = ce[(clk_reads + (int)(clk_fail->tok[i].n > 1 ? clk_fail->tok[i].v[1] : 0)) & 3];
+				TR(0xA2, clk_reads - 1, errno, "clock_gettime -> -1 errno %d (injected)", errno);
 				return (-1);
 			}
 	}
 	clk_reads++;
 	now_ns += tick_ns;
+	if (c == CLOCK_REALTIME) {
+		/*
+		 * The wall clock is not the monotonic clock: it reads some 54 years more.  A process that has to use
+		 * it throughout (no monotonic clock) sees consistent times; one that mixes the two does not.
+		 */
+		uint64_t wall = now_ns + 1700000000ULL * 1000000000ULL;
+
+		ts->tv_sec = (time_t)(wall / 1000000000ULL);
+		ts->tv_nsec = (long)(wall % 1000000000ULL);
+		return (0);
+	}
 	if (sig_at_clock > 0 && ++clock_reads_in_step == sig_at_clock && in_run) {
 		R->cnt[N_SIGCLK]++;
 		TR(0xA1, 0, 0, "signal at clock read -> events_interrupt()");
